@@ -45,12 +45,21 @@ let str_bm a = String.concat " " [string_of_zlist a.b_name; str_vox a.b_voxel; s
                                   str_vol a.b_vol; str_nv a.b_nv]
 let str_elem ((s, ix), nm) = (if s then "S" else "V") ^ ":" ^ string_of_z nm ^ ":" ^ string_of_zlist ix
 let str_bm_full a = str_bm a ^ " elems=" ^ String.concat ";" (List.map str_elem (bm_elements a))
+(* per-parcel vertex dictionaries: dicts separated by ';', entries by '|', entry = <structure>:[v,...]
+   e.g.  38:[0,2]|43:[1];;5:[7]   (an empty dict is '.'); "-" = no parcels *)
+let parse_vdict (s : string) : (z * z list) list =
+  if s = "" || s = "." then [] else List.map (fun e -> match String.index_opt e ':' with
+    | Some i -> (z_of_string (String.sub e 0 i), zlist_of_string (String.sub e (i + 1) (String.length e - i - 1)))
+    | None -> failwith "bad vdict entry") (String.split_on_char '|' s)
+let parse_vdicts (s : string) = if s = "-" then [] else List.map parse_vdict (String.split_on_char ';' s)
+let str_vdict d = if d = [] then "." else String.concat "|" (List.map (fun (k, v) -> string_of_z k ^ ":" ^ string_of_zlist v) d)
+let str_vdicts l = if l = [] then "-" else String.concat ";" (List.map str_vdict l)
 let parse_par = function
   | [n; x; t; v; d] -> { pa_name = zlist_of_string n; pa_voxels = zlist_of_string x;
-                         pa_vertices = zlist_of_string t; pa_vol = parse_vol v; pa_nv = pairs (zlist_of_string d) }
+                         pa_vertices = parse_vdicts t; pa_vol = parse_vol v; pa_nv = pairs (zlist_of_string d) }
   | _ -> failwith "bad par"
 let str_par a = String.concat " " [string_of_zlist a.pa_name; string_of_zlist a.pa_voxels;
-                                   string_of_zlist a.pa_vertices; str_vol a.pa_vol; str_nv a.pa_nv]
+                                   str_vdicts a.pa_vertices; str_vol a.pa_vol; str_nv a.pa_nv]
 let parse_sc = function [n; m] -> { sc_name = zlist_of_string n; sc_meta = zlist_of_string m } | _ -> failwith "bad sc"
 let str_sc a = string_of_zlist a.sc_name ^ " " ^ string_of_zlist a.sc_meta
 let parse_lab = function
